@@ -422,3 +422,34 @@ Example ex_cap_run :
               mkblk 1700000015000 1000000000000000000000000000 (Some (true, 7800000000000000000))]
   = Some (mkst 1700000015000 (of_int 20000000000 + 1000) false 7800000000000000000 (of_int 20000000000 + 1000) 1000 0).
 Proof. vm_compute. reflexivity. Qed.
+
+(** the statements above, collected for Props/C13.v *)
+Theorem leap_rule_correct :
+  (forall ms, days_before_year (year_of_ms ms) * ms_per_day <= ms
+              < days_before_year (year_of_ms ms + 1) * ms_per_day) /\
+  (forall d y, days_before_year y <= d < days_before_year (y + 1) -> year_of_days d = y) /\
+  days_before_year 1970 = 0 /\
+  (forall y, days_before_year (y + 1) = days_before_year y + (if is_leap y then 366 else 365)) /\
+  (forall y, is_leap y = true <-> (y mod 4 = 0 /\ y mod 100 <> 0) \/ y mod 400 = 0) /\
+  (forall y, year_ms y = (days_before_year (y + 1) - days_before_year y) * ms_per_day).
+Proof.
+  exact (conj year_of_ms_spec (conj year_of_days_unique (conj days_before_year_1970
+        (conj days_before_year_succ (conj is_leap_spec year_ms_is_year_length))))).
+Qed.
+
+Theorem nonvacuous :
+  end_blocker ex_s 1700000005000 1000000000000000000000000000
+    = Some (mint_to_collector ex_s 12366818873682000000 1700000005000) /\
+  (year_of_ms 1704067199999 = 2023 /\ year_of_ms 1704067200000 = 2024 /\
+   year_of_ms 4102444800000 = 2100 /\ year_of_ms 13569465600000 = 2400 /\
+   is_leap 2024 = true /\ is_leap 2100 = false /\ is_leap 2400 = true) /\
+  run ex_cap [mkblk 1700000005000 1000000000000000000000000000 None;
+              mkblk 1700000010000 1000000000000000000000000000 None;
+              mkblk 1700000015000 1000000000000000000000000000 (Some (true, 7800000000000000000))]
+    = Some (mkst 1700000015000 (of_int 20000000000 + 1000) false 7800000000000000000
+                 (of_int 20000000000 + 1000) 1000 0).
+Proof.
+  refine (conj ex_mint (conj _ ex_cap_run)).
+  destruct ex_year_boundaries as (_ & a & b & _ & _ & _ & c & d & _ & _ & _ & e & f & g).
+  exact (conj a (conj b (conj c (conj d (conj e (conj f g)))))).
+Qed.
